@@ -757,20 +757,22 @@ def random_programs(ctx, objdir, runtime):
     n_vm = 8 if ctx.quick else 120
     n_fp = 8 if ctx.quick else 120
     n_refine = 12 if ctx.quick else 80
-    progs = []
+    progs, fam_of = [], {}
     for i in range(n + n_init + n_sw + n_vm + n_fp):
         t = ["x86_64-sysv", "aarch64", "riscv64"][i % 3] if not ctx.quick else ["x86_64-sysv", "aarch64"][i % 2]
         rng = random.Random(ctx.seed * 100003 + i)
         if i >= n + n_init + n_sw + n_vm:
-            progs.append((fp_program(rng, c01.charsigned_of(t)), t))
+            fam, pr = "fp", fp_program(rng, c01.charsigned_of(t))
         elif i >= n + n_init + n_sw:
-            progs.append((vm_program(rng, c01.charsigned_of(t)), t))
+            fam, pr = "vm", vm_program(rng, c01.charsigned_of(t))
         elif i >= n + n_init:
-            progs.append((switch_program(rng, c01.charsigned_of(t)), t))
+            fam, pr = "switch", switch_program(rng, c01.charsigned_of(t))
         elif i >= n:
-            progs.append((init_program(rng, c01.charsigned_of(t)), t))
+            fam, pr = "init", init_program(rng, c01.charsigned_of(t))
         else:
-            progs.append((Gen(rng).program(c01.charsigned_of(t)), t))
+            fam, pr = "random", Gen(rng).program(c01.charsigned_of(t))
+        progs.append((pr, t))
+        fam_of[id(pr)] = fam
     # compile all with the real compiler
     def comp(pt):
         p, t = pt
@@ -847,7 +849,11 @@ def random_programs(ctx, objdir, runtime):
         ctx.validated(1)
         vlib.pool_add("C01", src, t)
     # flow C: Refine on a sample (CSem and QbeMachine both inside TLC), binding il2c to QbeMachine
-    sample = defined[:n_refine - 3] + defined[-3:]
+    # (some of every program family; the general family gets the rest)
+    sample, per = [], max(1, n_refine // 6)
+    for fam in ("init", "switch", "vm", "fp"):
+        sample += [d for d in defined if fam_of.get(id(d[1][0])) == fam][:per]
+    sample += [d for d in defined if fam_of.get(id(d[1][0])) == "random"][:max(0, n_refine - len(sample))]
     if sample:
         c2, q2 = ctx.path("c_ref.ndjson"), ctx.path("q_ref.ndjson")
         with open(c2, "w") as fc, open(q2, "w") as fq:
@@ -866,7 +872,11 @@ def random_programs(ctx, objdir, runtime):
                 raise vlib.MachineryError("no Refine verdict for sample program %d" % (j + 1))
             ctx.cov["refine_verdicts"][v["verdict"]] = ctx.cov["refine_verdicts"].get(v["verdict"], 0) + 1
             if v["qstatus"].startswith("unsupported"):
+                ctx.cov.setdefault("refine_unsupported", {}).setdefault(fam_of.get(id(p), "?"), 0)
+                ctx.cov["refine_unsupported"][fam_of.get(id(p), "?")] += 1
                 continue
+            ctx.cov.setdefault("refine_decided", {}).setdefault(fam_of.get(id(p), "?"), 0)
+            ctx.cov["refine_decided"][fam_of.get(id(p), "?")] += 1
             _, kind, detail, lines = nat[pid]
             qlines = [str(from_w8(x)) for x in v["qout"]]
             # three-way: il2c must agree with QbeMachine on the same IL (binds the accelerated executor to the spec)
